@@ -209,13 +209,24 @@ def r17_4(ctx):
                   floor=2)
     out.exhaustive = True
     fn = ctx.fn("jordancurve.JordanCurve.__float__")
-    for area, want in ((Fr(2), 7), (Fr(-2), -7)):
-        J = Obj("J")
+    # the stand-in curve has geometry to look at, none of which tells its orientation: a lens of two arcs (its end
+    # points span no area) and a crescent whose end-point polygon turns the other way -- only the integral does
+    from rules.C16 import PV
+    worlds = [("lens of two arcs", [PV(0, 0), PV(2, 0)], [PV(1, -1), PV(1, 1)]),
+              ("crescent", [PV(0, 0), PV(0, 2), PV(3, 1)], [PV(-2, 1), PV(4, 3), PV(4, -1)])]
+    for area, want, (wname, ends, mids) in ((Fr(2), 7, worlds[0]), (Fr(-2), -7, worlds[0]), (Fr(2), 7, worlds[1]),
+                                            (Fr(-2), -7, worlds[1])):
+        n = len(ends)
+        segs = tuple(Obj(f"s{i}", ctrlpoints=(ends[i], mids[i], ends[(i + 1) % n]), degree=2, npts=3) for i in range(n))
+        J = Obj("J", segments=segs, vertices=tuple(p for i in range(n) for p in (ends[i], mids[i])))
+        J.__dict__["points"] = lambda *a, ends=ends, **k: tuple(ends) + (ends[0],)
         J.__dict__["__lenght"] = None
         J.__dict__["_JordanCurve__lenght"] = None
         seen = []
 
-        def hook(rn, ev, call, name, recv, args, kwargs, area=area):
+        def hook(rn, ev, call, name, recv, args, kwargs, area=area, J=J, ends=ends):
+            if name == "points" and recv is J:
+                return tuple(ends) + (ends[0],)
             if name == "lenght":
                 seen.append(("lenght", args[0]))
                 return 7
@@ -226,8 +237,10 @@ def r17_4(ctx):
         try:
             got = Runner(ctx, set(), hook).call_fn(fn, [J])
             ok = got == want and sorted(s[0] for s in seen) == ["area", "lenght"] and all(s[1] is J for s in seen)
-            (out.ok if ok else out.bad)(fn.qname, f"area {area} -> {want}" if ok else
-                                        f"signed length for area {area} is {got!r} (integrals taken: {seen})", where=fn.where())
+            (out.ok if ok else out.bad)(fn.qname, f"{wname}, area {area} -> {want}" if ok else
+                                        f"signed length of a {wname} of area {area} is {got!r} (integrals taken: "
+                                        f"{[s[0] for s in seen]}): the sign must be that of the area integral of the curve",
+                                        where=fn.where())
         except (Undecided, Raised) as ex:
             out.undecided(fn.qname, str(ex), where=fn.where())
     return out
